@@ -418,7 +418,7 @@ def run_extra(ctx):
                 viol("cli-filter-file-order", case=case, cmd=" ".join(cmd[1:]), cwd=d)
             # ---- filter --line: "<file> <number>: " in front of every match (theorem filter_line_prefix) - the prefix is
             # Match.Source / Match.LineNumber as they travelled through readers, batches and workers
-            if (w, b, r) != combos[0] and rnd.intn(2) == 0:
+            if (w, b, r) != combos[0] and rnd.intn(2 if quick else 4) == 0:
                 cmd = base + ["filter", "-l"] + args + par + files
                 try:
                     p = subprocess.run(cmd, cwd=d, stdout=subprocess.PIPE, stderr=subprocess.PIPE, timeout=60)
